@@ -86,29 +86,47 @@ class FsmFacts:
                     puts.append((g, n))
         if not puts:
             raise AnalysisError("no put_nowait() on the FSM queue found")
-        if any(g is not sc for g, _ in puts):
-            self.notes.append("the FSM queue has a producer other than ProtocolContext.send_cmd")
+        producers = {g.qualname: g for g, _ in puts}
+        if len(producers) != 1:
+            self.notes.append(f"the FSM queue has more than one producer: {sorted(producers)}")
             return False
-        cfg = ctx.plain_cfg(sc)
+        prod = next(iter(producers.values()))
+        if prod is not sc:
+            # a private method of the context that only send_cmd calls is part of send_cmd
+            callers = {cs.caller.qualname for cs in ctx.cg.callers_of(prod)}
+            if prod.cls is not sc.cls or callers != {sc.qualname}:
+                self.notes.append(f"the FSM queue's producer {prod.short} is not ProtocolContext.send_cmd (nor a private method only it calls)")
+                return False
+        cfg = ctx.plain_cfg(prod)
         put_nodes = [x for x in cfg.nodes if x.kind == "stmt" and x.ast is not None and any(n is c for _, n in puts for c in ast.walk(x.ast))]
+        # the command that goes into the entry: a parameter of the producer appearing in the (copy-propagated) entry
+        from .props.common import expand
+
+        params = {a0.arg for a0 in prod.node.args.args + prod.node.args.kwonlyargs}
+        in_entry: set[str] = set()
+        for _g, n in puts:
+            if n.args:
+                for x in ast.walk(expand(prod.node, n.args[0], pure_only=False)):
+                    if isinstance(x, ast.Name) and x.id in params:
+                        in_entry.add(x.id)
         # a fenced read of both headers dominating every put
         fenced = []
-        for t in own_nodes(sc.node):
+        for t in own_nodes(prod.node):
             if isinstance(t, ast.Try):
-                body_txt = " ".join(norm(b) for b in t.body)
-                if "cmd.tx_header" in body_txt and "cmd.rx_header" in body_txt:
+                attrs = {(norm(x.value), x.attr) for bnode in t.body for x in ast.walk(bnode) if isinstance(x, ast.Attribute) and x.attr in ("tx_header", "rx_header")}
+                if any((nm, "tx_header") in attrs and (nm, "rx_header") in attrs for nm in in_entry):
                     for h in t.handlers:
-                        hc = ctx.handler_classes(sc, h)
-                        if any(ctx.is_sub("ramses_tx.exceptions.PacketInvalid", c) for c in hc) and any(isinstance(s, ast.Raise) for s in ast.walk(ast.Module(body=h.body, type_ignores=[]))):
+                        hc = ctx.handler_classes(prod, h)
+                        if any(ctx.is_sub("ramses_tx.exceptions.PacketInvalid", c) for c in hc) and any(isinstance(s_, ast.Raise) for s_ in ast.walk(ast.Module(body=h.body, type_ignores=[]))):
                             fenced.append(t)
         if not fenced:
-            self.notes.append("ProtocolContext.send_cmd does not read cmd.tx_header/rx_header under a PacketInvalid fence before queueing")
+            self.notes.append(f"{prod.short} does not read the command's tx_header/rx_header under a PacketInvalid fence before queueing")
             return False
-        reads = [x for x in cfg.nodes if x.kind == "stmt" and x.ast is not None and any(x.ast is b for t in fenced for b in t.body)]
-        for p in put_nodes:
-            dom = cfg.dominators().get(p.id, set())
+        reads = [x for x in cfg.nodes if x.kind == "stmt" and x.ast is not None and any(x.ast is b0 for t in fenced for b0 in t.body)]
+        for p0 in put_nodes:
+            dom = cfg.dominators().get(p0.id, set())
             if not any(r.id in dom for r in reads):
-                self.notes.append("a put_nowait() in send_cmd is not dominated by the fenced header read")
+                self.notes.append(f"a put_nowait() in {prod.short} is not dominated by the fenced header read")
                 return False
         return True
 
